@@ -99,8 +99,11 @@ def run_case(close_raises, fail_submit, script, later_state=None):
                 if later_state is not None:
                     # what the scheduler says about the jobs of the earlier invocation when the next one starts
                     from gwf.backends.base import BackendStatus
-                    st_ = getattr(BackendStatus, later_state)
-                    ops.states = {j: st_ for j in want_tracked.values()}
+                    if later_state == "ABSENT":
+                        ops.states = {}                     # no record at all (neither queue nor accounting)
+                    else:
+                        st_ = getattr(BackendStatus, later_state)
+                        ops.states = {j: st_ for j in want_tracked.values()}
                     ops.get_job_states = lambda tracked, ops=ops: {j: ops.states[j] for j in tracked if j in ops.states}
                     be = TrackingBackend(wd, name="fake", ops=ops)
         return problems
@@ -216,7 +219,7 @@ def search():
                             "problems": pr}, tried
     # histories: the jobs of the first invocation have failed / were cancelled / completed / are forgotten by the
     # scheduler when the second invocation opens and closes the backend (e.g. `gwf status`)
-    for later in ("FAILED", "CANCELLED", "COMPLETED", "UNKNOWN", "RUNNING"):
+    for later in ("FAILED", "CANCELLED", "COMPLETED", "UNKNOWN", "RUNNING", "ABSENT"):
         for sc in scripts:
             if sc.count(("close",)) < 2:
                 continue
